@@ -259,8 +259,8 @@ def c02_pull_scoping(ex, S, T):
                 msg.append(And(m.exists, ex.eq(m.v['id'], p.v['message_id']), ex.eq(r['message_id'], m.v['id']),
                                val_eq(ex, r['payload'], m.v['payload']), val_eq_attrs(ex, r['attributes'], m.v['attributes']),
                                ex.eq(r['published_at'], m.v['published_at']),
-                               ex.eq(r['order_key_null'], m.isnull('order_key')),
-                               Or(m.isnull('order_key'), ex.eq(r['order_key'], m.v['order_key']))))
+                               # an absent ordering key and the empty key are the same thing on the wire
+                               ex.eq(Ite(r['order_key_null'], '', r['order_key']), Ite(m.isnull('order_key'), '', m.v['order_key']))))
             conds.append(And(same, mine, p.isnull('completed_at'), p.v['expires_at'] > t_lo, p.v['attempt_at'] <= t_hi,
                              Or(*msg), ex.eq(r['num_attempts'], p.v['attempts'] + 1)))
         out.append(('result-is-rightful-and-intact[%d]' % k, Or(*conds)))
